@@ -12,12 +12,14 @@
 (***************************************************************************)
 EXTENDS Integers, Sequences, FiniteSets, TLC, Json
 
-CONSTANT N
+CONSTANTS N,
+          WithKeyref     \* FALSE: leave out the shape whose combination with a self-mentioning union is the recorded fatal crash
+                         \* (every such graph costs a dead worker; the N = 2 configuration keeps it)
 Types == 1..N
 \* shape of a type body
 \* leaf: an object; any / empty / regex: the other notations a TYPE may have; scalar: a JSight scalar;
 \* keyref: an object whose key is a type shortcut ({ @t : 1 }); nullref: a reference with a rule (@t // {nullable: true})
-Shapes == [k : {"leaf", "any", "empty", "regex", "scalar"}] \cup [k : {"ref", "prop", "optprop", "arr", "allof", "keyref", "nullref"}, a : Types] \cup [k : {"or"}, a : Types, b : Types]
+Shapes == [k : {"leaf", "any", "empty", "regex", "scalar"}] \cup [k : {"ref", "prop", "optprop", "arr", "allof", "nullref"} \cup (IF WithKeyref THEN {"keyref"} ELSE {}), a : Types] \cup [k : {"or"}, a : Types, b : Types]
 Sites == {"none", "path-ref", "path-prop", "headers", "query", "request", "response", "rpc", "typeuse"}
 
 VARIABLES g, site
